@@ -24,7 +24,11 @@ PROP = {
              "message cell; Wallet.CreateMessageBody on wallets created with / without WithMessageLifetime (none, 30 s, 1 s, 24 h, 7 d, "
              "0, 1.5 s, -5 s, 180 s) x the other options x zero / explicit ValidUntil x every version (kind c14.expiry): the expiry the "
              "body carries, relative to the clock for a default expiry, vs the model whose clock is a parameter; the same wallet through "
-             "SendV2 must carry the same default expiry. "
+             "SendV2 must carry the same default expiry; the same Sendables through EVERY sending entry point (kind c14.entry: Send, SendV2, "
+             "RawSend, RawSendV2, CreateMessageBody on a non-existent account) with every field explicitly zero (mode 0, amount 0, bounce "
+             "false, workchain 0, sub-wallet 0, network id 0, seqno 0, valid_until 0) and random mixes: wallet id, seqno and the carried "
+             "(cell, mode) list vs the model; oracles: each list equals the request and all entry points agree (zero is a value, not "
+             "'unset'). "
              "Oracles on the implementation: returned hash = hash of the payload, signature valid over the hash of the signed part cut by "
              "position, accepted under the own key, rejected as ErrBadSignature under another key, EVERY single-bit flip of the signed bits "
              "+ 16 signature bits + every referenced cell rejected, ExtractRawMessages = the requested (cell, mode) list in order, decoded "
@@ -50,7 +54,9 @@ PROP = {
                     "(W, hash of the StateInit of code and data) with that StateInit attached (the workchain-dropping design is refuted in "
                     "Proofs/WalletHistory.v); C14_create_message_body_expiry: CreateMessageBody signs the explicit expiry or "
                     "now + the lifetime the wallet was configured with (clock a parameter), the value SendV2 takes too "
-                    "(C15_api_send_v2_expiry); the constant-lifetime design is refuted in Proofs/WalletHistory.v. "
+                    "(C15_api_send_v2_expiry); the constant-lifetime design and the 'mode 0 means unset' design of Send are refuted in "
+                    "Proofs/WalletHistory.v; the carried modes are the requested ones through RawSend/RawSendV2 (C14_transfers_carried), "
+                    "Send/SendV2 (C15_api_send_v2_expiry: extract_raw = ms) and CreateMessageBody (C14_create_message_body_expiry: d_msgs = ms). "
                     "coq/Properties/C14_gen.v re-checks limits, opcodes and the action magic "
                     "translated from today's wallet/*.go."),
     'assumptions': ["Ed25519 and the cell hash are parameters; 'no other key' / 'changed bit' hold under the stated hypotheses ideal_signature and no_second_preimage (idealisations, not proved of Ed25519/SHA-256)",
